@@ -58,6 +58,16 @@ def schedTwoKeys : List (Tid × Choice) :=
   moves 1 { fresh := 2 } 6 ++
   moves 1 { call := .commit } 20
 
+/-- thread 1 creates "k" and commits; the eviction pass (thread 3, `gcRecord` on record 10, which it finds dead)
+    locks it, validates it against the index, unlinks it; a second mini transaction on the same record (thread 4, from
+    an older `records()` snapshot) then fails its validation and gives up without a commit -/
+def schedGc : List (Tid × Choice) :=
+  moves 1 { call := .begin [("k", true, true)], fresh := 10 } 7 ++
+  moves 1 { call := .newKey "k" } 8 ++
+  moves 1 { call := .commit } 5 ++
+  moves 3 { call := .mini 10, dead := true } 14 ++
+  moves 4 { call := .mini 10 } 10
+
 end NodisVerif.Proofs.TxProg
 
 namespace NodisVerif.Proofs.TxProg
